@@ -309,6 +309,18 @@ fn journey(cx: &mut Ctx, n: u64, case: &Value, sp: &[Space]) {
     // arrival exactly at a pole: latitude comes out of asin at 1 (property: "away from poles"); only the
     // admissibility of the longitude and a coarse latitude are demanded there
     let tol_pt = |e: &Expect| if e.free { TOL_DEG_POLE } else { TOL_DEG };
+    // courses that deviate from due north / south only by a few units in the last place of the longitude: the bearing is a
+    // tiny angle on either side of 0 (or 180) and must still be reported in [0, 360)
+    if a.x().abs() < 179.0 && a.y().abs() <= 60.0 {
+        let ulps = |v: f64, k: i64| -> f64 { if v == 0.0 { k as f64 * 5e-324 * 1e300 * 1e8 } else { f64::from_bits((v.to_bits() as i64 + if v > 0.0 { k } else { -k }) as u64) } };
+        for s in sp.iter().filter(|s| s.canonical_bearing) {
+            let mut j = Judge { cx: &mut *cx, case, space: s.name, long_west: false };
+            for (k, dlat, want) in [(-1i64, 10.0, 0.0), (1, 10.0, 0.0), (-3, 25.0, 0.0), (2, 5.0, 0.0), (-1, -10.0, 180.0), (1, -20.0, 180.0)] {
+                let b = Point::new(ulps(a.x(), k), a.y() + dlat);
+                j.bearing("bearing_near_meridian", format!("bearing(a, b), b = a moved by {k} ulps in longitude and {dlat} degrees in latitude"), guard(|| (s.bear)(a, b)), Some(want), true);
+            }
+        }
+    }
     for s in sp {
         let exact = match s.family {
             "gc" => !is_rh,
